@@ -4,7 +4,7 @@
 //                                   (unit edge weights; `-` when the lists are not uniform/in range and the Dijkstra
 //                                   would read outside them)
 // in : fn method=brute|vptree|covertree k=3 check=1 cb=plain|kernel <space fields of knn_common.hpp> [vs=..]
-// out: ids=<final lists> kfinal=<length of the returned lists> c=<is_connected(final)> fin=<0|1> levels=<k:lists|..>
+// out: ids=<final lists> kfinal=<length of the returned lists> rounds=<searches performed, counted through d(x,x)> c=<is_connected(final)> fin=<0|1> levels=<k:lists|..>
 //      levels = the lists find_neighbors(.., k_j, false) returns for k_j = k, 2k, 4k, .. (clamped to N-1, up to N-1),
 //      recomputed with the vantage stream replayed from the start, i.e. the graphs a doubling recursion can see.
 //      Nothing is derived from log messages.
@@ -51,13 +51,23 @@ static std::string finite_geodesics(std::vector<int>& data, Neighbors& nb)
 }
 
 template <class Callback>
-static std::string run_fn(const std::string& method, std::vector<int>& data, Callback cb, IndexType k, bool check)
+static std::string run_fn(const std::string& method, std::vector<int>& data, Callback cb, IndexType k, bool check,
+                          const vk::Space& sp)
 {
     int N = (int)data.size();
     vk::stream().pos = 0;
+    long self0 = sp.nself;
     Neighbors nb = find_neighbors(vk::method_of(method), data.begin(), data.end(), cb, k, check);
+    long nself = sp.nself - self0;
     // the k of the returned graph is read off the lists themselves (never from log text)
     std::string out = "ids=" + vk::show_lists(nb) + " kfinal=" + std::to_string(nb.empty() ? 0 : (int)nb[0].size());
+    // the number of searches the real recursion performed, observed through the distance callback (not assumed): every
+    // search of each of the three methods evaluates d(x, x) exactly once per sample (plain callbacks), so the run made
+    // nself / N searches; `-` when the count is not a multiple of N or the callback is a kernel (diagnostic unavailable)
+    if (sp.metric.empty() || N == 0 || nself % N != 0 || nself == 0)
+        out += " rounds=-";
+    else
+        out += " rounds=" + std::to_string(nself / N);
     bool uni = uniform_in_range(nb, N);
     out += std::string(" c=") + (uni ? (is_connected(data.begin(), data.end(), nb) ? "1" : "0") : "-");
     out += " fin=" + finite_geodesics(data, nb);
@@ -118,9 +128,9 @@ int main()
             IndexType k = std::stoi(f["k"]);
             bool check = !f.count("check") || f["check"] == "1";
             if (f["cb"] == "kernel")
-                out = run_fn(f["method"], data, vk::KernelD(vk::KernCb{&sp}), k, check);
+                out = run_fn(f["method"], data, vk::KernelD(vk::KernCb{&sp}), k, check, sp);
             else
-                out = run_fn(f["method"], data, vk::PlainD(vk::DistCb{&sp}), k, check);
+                out = run_fn(f["method"], data, vk::PlainD(vk::DistCb{&sp}), k, check, sp);
         }
         std::cout << out << std::endl;
     }
